@@ -2,6 +2,8 @@ import Model.WinArgv
 import Model.Sh
 import Model.Life
 import Model.Comm
+import Model.Path
+import Model.Spawn
 /-!
   `modeldriver`: one request per input line, one answer per output line.
   The harness runs the implementation on the same requests and diffs the answers.
@@ -295,6 +297,137 @@ def handle (args : List String) : String :=
 
 end CommIO
 
+namespace SpawnIO
+open Spawn
+
+def natList (tok : String) : Option (List Nat) := Hex.decodeW 2 tok
+
+def parseRedir (t : String) (files : List (String × Nat)) : Option Redir :=
+  match t with
+  | "N" => some .none
+  | "P" => some .pipe
+  | "M" => some .merge
+  | _ =>
+    match files.find? (·.1 == t) with
+    | some (_, fd) => if t.startsWith "F" then some (.file fd) else some (.rc fd)
+    | none => none
+
+def kvOf (toks : List String) : List (String × String) :=
+  toks.filterMap fun t => match t.splitOn "=" with
+    | [k, v] => some (k, v)
+    | _ => none
+
+def get (kv : List (String × String)) (k : String) : String := ((kv.find? (·.1 == k)).map (·.2)).getD "-"
+
+def showCall : SCall → String
+  | .pipe => "pipe"
+  | .getfd fd => s!"getfd{fd}"
+  | .setfd fd fl => s!"setfd{fd}.{fl}"
+  | .fork => "fork"
+  | .close fd => s!"close{fd}"
+  | .readStatus fd => s!"read{fd}"
+  | .waitpid => "waitpid"
+  | .chdir => "chdir"
+  | .dup2 a b => s!"dup2.{a}.{b}"
+  | .sigmask => "sigmask"
+  | .signal => "signal"
+  | .setgid g => s!"setgid{g}"
+  | .setuid u => s!"setuid{u}"
+  | .setpgid => "setpgid"
+  | .exec i => s!"exec{i}"
+  | .writeStatus fd e => s!"write{fd}.{e}"
+  | .exit c => s!"exit{c}"
+
+def parseResp (t : String) : Option SResp :=
+  match t.toList with
+  | ['o', 'k'] => some .ok
+  | 's' :: _ => some .started
+  | 'e' :: ds => (String.ofList ds).toNat?.map .err
+  | 'v' :: ds => (String.ofList ds).toNat?.map .val
+  | 'f' :: ds => match (String.ofList ds).splitOn "." with
+    | [a, b] => match a.toNat?, b.toNat? with
+      | some a, some b => some (.fds a b)
+      | _, _ => none
+    | _ => none
+  | 'n' :: ds => match (String.ofList ds).splitOn "." with
+    | [a, b] => match a.toNat?, b.toNat? with
+      | some a, some b => some (.nbytes a b)
+      | _, _ => none
+    | _ => none
+  | _ => none
+
+/-- sort every maximal run of consecutive `close` calls (drop order of a tuple is not compared) -/
+def canon (l : List String) : List String :=
+  let rec go (l : List String) (run : List String) (acc : Array String) : List String :=
+    match l with
+    | [] => (acc ++ (run.toArray.qsort (· < ·))).toList
+    | x :: xs =>
+      if x.startsWith "close" then go xs (x :: run) acc
+      else go xs [] ((acc ++ (run.toArray.qsort (· < ·))).push x)
+  go l [] #[]
+
+def firstDiff (a b : List String) (i : Nat := 0) : String :=
+  match a, b with
+  | [], [] => "same"
+  | x :: xs, y :: ys => if x = y then firstDiff xs ys (i + 1) else s!"@{i}:model={x},impl={y}"
+  | x :: _, [] => s!"@{i}:model={x},impl=<end>"
+  | [], y :: _ => s!"@{i}:model=<end>,impl={y}"
+
+/-- `spawn k=v… | <parent events call=resp> | <child events call=resp> | <exec paths> | <envp>` -/
+def handle (args : List String) : String :=
+  let parts := (" ".intercalate args).splitOn " | "
+  match parts with
+  | [cfgS, pS, cS, exS, envS] =>
+    let kv := kvOf (cfgS.splitOn " ")
+    let files : List (String × Nat) := (kv.filter (fun (k, _) => k.endsWith "fd")).filterMap
+      (fun (k, v) => v.toNat?.map (fun n => ((k.dropEnd 2).toString, n)))
+    match parseRedir (get kv "in") files, parseRedir (get kv "out") files, parseRedir (get kv "err") files,
+          natList (get kv "cmd") with
+    | some ri, some ro, some re, some cmd =>
+      let path : Option (List Nat) := if get kv "path" = "unset" then none else natList (get kv "path")
+      let cands := Path.candidates cmd path
+      let c : Cfg := { sin := ri, sout := ro, serr := re, detached := get kv "det" = "1", cwd := get kv "cwd" = "1",
+                       uid := (get kv "uid").toNat?, gid := (get kv "gid").toNat?, pgid := get kv "pgid" = "1",
+                       argvEmpty := get kv "argvEmpty" = "1", nul := get kv "nul" = "1", ncand := cands.length }
+      let pev := (pS.splitOn " ").filter (fun t => t ≠ "" && t ≠ "-")
+      let cev := (cS.splitOn " ").filter (fun t => t ≠ "" && t ≠ "-")
+      let split (e : String) : String × String := match e.splitOn "=" with | [a, b] => (a, b) | _ => (e, "?")
+      let pCalls := pev.map (fun e => (split e).1)
+      let cCalls := cev.map (fun e => (split e).1)
+      match allSome (pev.map (fun e => parseResp (split e).2)), allSome (cev.map (fun e => parseResp (split e).2)) with
+      | some pR, some cR =>
+        let po := parentRun c pR
+        let mP := po.calls.map showCall ++ (if po.res = .ok then (dropOk c po.pipes).map showCall else [])
+        let dP := firstDiff (canon mP) (canon pCalls)
+        if dP ≠ "same" then s!"diverge parent{dP}" else
+        let (sr, sw) := po.status.getD (0, 0)
+        let forkedM := po.calls.any (· == .fork) && !(pR.any (fun r => false))
+        let (mC, cres) := childRun c po.pipes sr sw cR
+        let dC := if cCalls.isEmpty && !(pCalls.any (· == "fork")) then "same" else
+                  if cCalls.isEmpty then "same" else firstDiff (canon (mC.map showCall)) (canon cCalls)
+        if dC ≠ "same" then s!"diverge child{dC}" else
+        -- the paths tried and the environment handed over
+        let exObs := (exS.splitOn " ").filter (fun t => t ≠ "" && t ≠ "-")
+        let exModel := (cands.take exObs.length).map (Hex.encodeW 2)
+        if exObs ≠ exModel then s!"diverge exec-paths model={exModel} impl={exObs}" else
+        let envOk :=
+          if envS = "skip" ∨ envS = "inherit" then true else
+          let pairs := ((get kv "env").splitOn ",").filterMap (fun kvs => match kvs.splitOn ":" with
+            | [k, v] => match natList k, natList v with
+              | some k, some v => some (k, v)
+              | _, _ => none
+            | _ => none)
+          (Path.renderEnv pairs).map (Hex.encodeW 2) = (envS.splitOn " ").filter (fun t => t ≠ "" && t ≠ "-")
+        if !envOk then "diverge envp" else
+        let _ := forkedM
+        let _ := cres
+        "ok " ++ (match po.res with | .ok => "ok" | .err e => s!"err{e}" | .logic => "logic" | .stuck => "stuck")
+      | _, _ => "bad-request-resp"
+    | _, _, _, _ => "bad-request-cfg"
+  | _ => "bad-request-parts"
+
+end SpawnIO
+
 def handle (line : String) : String :=
   match tokens line with
   | "win" :: args => handleWin args
@@ -304,6 +437,7 @@ def handle (line : String) : String :=
   | "cmds" :: args => handleSh "cmds" args
   | "life" :: args => LifeIO.handle args
   | "comm" :: args => CommIO.handle args
+  | "spawn" :: args => SpawnIO.handle args
   | _ => "bad-request"
 
 partial def loop (h : IO.FS.Stream) (out : IO.FS.Stream) : IO Unit := do
